@@ -744,6 +744,13 @@ fn routing_probes(spec: &AppSpec) -> Vec<(String, String, Option<String>)> {
             if let Some((_, rest)) = w.split_once('.') {
                 hosts.push(Some(rest.to_string()));
             }
+            if g.starts_with("{*") {
+                // a leading catch-all stands for one or more labels, however many: a host of more than 253 bytes
+                // (four 60-character labels in front of the witness), also in absolute form
+                let long = format!("{}{w}", format!("{}.", "l".repeat(60)).repeat(4));
+                hosts.push(Some(long.clone()));
+                hosts.push(Some(format!("{long}.")));
+            }
         }
         hosts.push(Some("nope.example".to_string()));
         hosts.push(None);
@@ -913,6 +920,22 @@ fn routing_family(mut chk: Check) -> ! {
         evaluate_routing(&mut chk, &rounds[*ri], out, solo);
     }
     }
+    if prop == "C20" {
+        // two guards that can match the same host are rejected (also when one of the two guarded blueprints holds
+        // nothing but a fallback): planted on rule-abiding applications whose routes all move below a guard
+        let n = if tier == Tier::Quick { 16 } else { 200 };
+        let bases = draw_abiding(&chk, "c20-overlap", n);
+        let cases: Vec<(AppSpec, String, bool)> = bases
+            .iter()
+            .enumerate()
+            .filter_map(|(i, b)| genr::plant(b, 14, ((vcommon::fnv(&format!("{}-ov-{i}", chk.settings.seed)) >> 7) & 0xffff) as u16))
+            .map(|p| (p.spec, p.what, p.nontrivial))
+            .collect();
+        let lane = lane("l0");
+        for chunk in cases.chunks(8) {
+            eval_planted(&mut chk, &lane, chunk);
+        }
+    }
     chk.finish()
 }
 
@@ -1054,6 +1077,12 @@ fn replay_routing(chk: &mut Check, path: &std::path::Path) {
         return;
     }
     let lane = lane("replay");
+    if specs[0].note.starts_with("planted") {
+        // (C20, end-to-end part: planted overlapping guards are judged like the plants of C08)
+        let chunk: Vec<(AppSpec, String, bool)> = specs.iter().map(|s| (s.clone(), s.note.trim_start_matches("planted ").to_string(), true)).collect();
+        eval_planted(chk, &lane, &chunk);
+        return;
+    }
     let solo = specs[0].note.contains("domains");
     let out = round::run_round(&lane, &specs, &RoundOpts { want_individual: true, run_requests: true, solo }, &|k| routing_script(&specs[k], k, solo).0);
     if let Some(e) = &out.infra_error {
@@ -1113,7 +1142,7 @@ fn planted_check(mut chk: Check) -> ! {
     let mut cases: Vec<(AppSpec, String, bool)> = vec![];
     for (bi, b) in base_specs.iter().enumerate() {
         for j in 0..per_base {
-            let rule = j % genr::RULES.len();
+            let rule = j % genr::C08_RULES;
             let raw = ((vcommon::fnv(&format!("{}-{bi}-{j}", chk.settings.seed)) >> 7) & 0xffff) as u16;
             match genr::plant(b, rule, raw) {
                 Some(p) => cases.push((p.spec, p.what, p.nontrivial)),
